@@ -248,6 +248,7 @@ func overlay(static, dep *world.BodySpec, bl *world.BlockSpec) *world.BodySpec {
 				m.Blocks = append(m.Blocks, b)
 			}
 		}
+		m.TargetableAs = append(append([]*world.TargetableSpec(nil), m.TargetableAs...), dep.TargetableAs...)
 		m.DocsLink = dep.DocsLink
 		m.Targets = dep.Targets
 		if dep.Ext != nil {
